@@ -33,6 +33,7 @@ read_build(builddir) -> {'ninja': text, 'targets': intro-targets.json, 'tests': 
                          'benchmarks': intro-benchmarks.json}
 
 option_matrix() -> list of (label, [args])   layout x default_library x unity
+backend_option_values() -> {option: [values]}  every other option that changes what the backend writes (live registrations)
 """
 from __future__ import annotations
 
@@ -977,6 +978,48 @@ def write_project(dir: str, files: T.Dict[str, str]) -> None:
             fh.write(text)
         if rel.endswith('gen.py'):
             os.chmod(p, 0o755)
+
+
+# options that are varied elsewhere or do not change what the backend writes on this host
+_OPTION_EXCLUDE = {'backend', 'genvslite', 'vsenv', 'layout', 'default_library', 'unity', 'unity_size', 'install_umask',
+                   'force_fallback_for', 'wrap_mode', 'auto_features', 'os2_emxomf', 'b_vscrt', 'b_bitcode',
+                   'b_thinlto_cache_dir', 'b_sanitize', 'backend_startup_project'}
+
+
+def backend_option_values() -> T.Dict[str, T.List[str]]:
+    """Every option that can change what the ninja backend writes, with boundary / all values, enumerated from the LIVE
+    registrations: CoreData.init_backend_options('ninja') (backend_*), options.COMPILER_BASE_OPTIONS (b_*) and
+    options.BUILTIN_CORE_OPTIONS minus _OPTION_EXCLUDE (so an option added upstream is picked up).
+    Booleans -> true/false, combos/features -> every choice, integers -> min, min+1, 2, 5 and max when bounded."""
+    from mesonbuild import options as O, coredata as C
+    found: T.Dict[str, T.Any] = {}
+
+    class _Store:
+        def add_system_option(self, name, opt):
+            found[str(name)] = opt
+
+    class _Fake:
+        optstore = _Store()
+    C.CoreData.init_backend_options(_Fake(), 'ninja')
+    for table in (O.COMPILER_BASE_OPTIONS, O.BUILTIN_CORE_OPTIONS):
+        for k, v in table.items():
+            if '.' not in k.name:
+                found.setdefault(k.name, v)
+    out: T.Dict[str, T.List[str]] = {}
+    for name, opt in found.items():
+        if name in _OPTION_EXCLUDE:
+            continue
+        if isinstance(opt, O.UserBooleanOption):
+            out[name] = ['true', 'false']
+        elif isinstance(opt, (O.UserComboOption, O.UserFeatureOption)):
+            out[name] = [str(c) for c in opt.choices]
+        elif isinstance(opt, O.UserIntegerOption):
+            lo = opt.min_value if opt.min_value is not None else 0
+            vals = {lo, lo + 1, 2, 5}
+            if opt.max_value is not None:
+                vals = {v for v in vals if v <= opt.max_value} | {opt.max_value}
+            out[name] = [str(v) for v in sorted(v for v in vals if v >= lo)]
+    return out
 
 
 def option_matrix() -> T.List[T.Tuple[str, T.List[str]]]:
